@@ -1,6 +1,8 @@
 """C14 - mappings, merge keys, sets, omaps built by the YAML 1.1 rules (rejection and shape clauses)."""
 import sys
 
+from sa import crosslist as XL
+from sa import rules_r6b as R6B
 from sa import rules_r6 as R6
 from sa import report, rules_repr as RR2, rules_confine as RC
 
@@ -24,6 +26,9 @@ def run(ctx, repo):
     ctx.call(R6.r_kind_exit, repo)
     ctx.call(R6.r_flatten_before_read, repo)
     ctx.call(R6.r_merge_cycle_cut, repo)
+    ctx.call(R6B.r_mapping_store_only, repo)
+    XL.mapping_rules(ctx, repo)
+    ctx.call(R6B.r_constructor_kind_checked, repo, ['loader.SafeLoader'])
 
 
 if __name__ == '__main__':
